@@ -168,3 +168,32 @@ def run_batches(traces, workers=16, timeout=3600, keep=None, heap="8g", max_supp
         finally:
             shutil.rmtree(work, ignore_errors=True)
     return verdicts, stats, errors
+
+
+def run_spec(module, payload, workers=8, timeout=3000, xmx="6g"):
+    """run spec/<module>.tla with spec/<module>.cfg on one JSON batch; returns (ok, generated, distinct, verdicts by
+    file name, stdout tail)"""
+    import shutil
+    import tempfile
+    work = tempfile.mkdtemp(prefix="verif-spec-")
+    try:
+        batch = os.path.join(work, "batch.json")
+        outdir = os.path.join(work, "out")
+        os.mkdir(outdir)
+        json.dump(payload, open(batch, "w"))
+        cmd = ["java", "-XX:+UseParallelGC", "-Xmx" + xmx, "-cp", TLC_CP, "tlc2.TLC", "-workers", str(workers), "-metadir",
+               os.path.join(work, "meta"), "-noGenerateSpecTE", "-config", os.path.join(SPEC_DIR, module + ".cfg"),
+               os.path.join(SPEC_DIR, module + ".tla")]
+        p = subprocess.run(cmd, cwd=SPEC_DIR, env=dict(os.environ, BATCH_FILE=batch, OUT_DIR=outdir), capture_output=True,
+                           text=True, timeout=timeout)
+        m = _STATS_RE.search(p.stdout)
+        verdicts = {}
+        for fn in os.listdir(outdir):
+            try:
+                verdicts[fn[:-5]] = json.load(open(os.path.join(outdir, fn)))
+            except Exception:
+                pass
+        ok = p.returncode == 0 and bool(m)
+        return ok, (int(m.group(1)) if m else 0), (int(m.group(2)) if m else 0), verdicts, p.stdout[-2000:]
+    finally:
+        shutil.rmtree(work, ignore_errors=True)
